@@ -535,13 +535,463 @@ def _time_key(tree) -> bool:
     return kt
 
 
+# ------------------------------------------------------------------------------------------ fitness: state and exits
+
+CLS = "ModelFittingDataTree"
+MUTATORS = {"append", "extend", "insert", "pop", "remove", "clear", "update", "setdefault", "add", "discard", "sort",
+            "reverse", "fill", "resize", "put", "itemset", "popitem", "__setitem__", "__setattr__", "__delitem__",
+            "setflags", "partition", "byteswap", "__iadd__", "__isub__", "__imul__"}
+CMPK = {ast.Eq: "CEq", ast.NotEq: "CNe", ast.LtE: "CLe", ast.Lt: "CLt", ast.GtE: "CGe", ast.Gt: "CGt"}
+INF_SRC = {"math.inf", "np.inf", "numpy.inf", "float('inf')", "np.inf", "inf", "float('infinity')", "np.Inf"}
+
+
+def _root_is_self(node) -> bool:
+    """`self.a`, `self.a.b`, `self.a[i]`, `self.a[i].b` ..."""
+    while isinstance(node, (ast.Attribute, ast.Subscript, ast.Starred)):
+        node = node.value
+    return isinstance(node, ast.Name) and node.id == "self"
+
+
+def _self_attr(node) -> str | None:
+    """`self.<name>` exactly"""
+    if isinstance(node, ast.Attribute) and isinstance(node.value, ast.Name) and node.value.id == "self":
+        return node.attr
+    return None
+
+
+def _q(v) -> str:
+    from fractions import Fraction
+    fr = Fraction(v)
+    return f"(Qmake ({fr.numerator}) {fr.denominator})" if fr.numerator < 0 else f"(Qmake {fr.numerator} {fr.denominator})"
+
+
+def _num_const(node):
+    """a finite numeric literal (optionally negated) -> python number, else None"""
+    if isinstance(node, ast.Constant) and isinstance(node.value, (int, float)) and not isinstance(node.value, bool):
+        v = node.value
+        return v if v == v and v not in (float("inf"), float("-inf")) else None
+    if isinstance(node, ast.UnaryOp) and isinstance(node.op, ast.USub):
+        v = _num_const(node.operand)
+        return None if v is None else -v
+    if isinstance(node, ast.UnaryOp) and isinstance(node.op, ast.UAdd):
+        return _num_const(node.operand)
+    return None
+
+
+def _ext_const(node) -> str | None:
+    """the Gallina `ext` of a constant initial value: a number, math.inf, -math.inf"""
+    v = _num_const(node)
+    if v is not None:
+        return f"(EFin {_q(v)})"
+    if ast.unparse(node) in INF_SRC:
+        return "EPInf"
+    if isinstance(node, ast.UnaryOp) and isinstance(node.op, ast.USub) and ast.unparse(node.operand) in INF_SRC:
+        return "ENInf"
+    if isinstance(node, ast.Call) and ast.unparse(node.func) == "float" and len(node.args) == 1 and not node.keywords:
+        return _ext_const(node.args[0])
+    return None
+
+
+class _Fit:
+    """`ModelFittingDataTree.fitness` as a description (Model.FitnessHist.fdesc): registers, guarded commands around
+    the accumulation, the returned expression.  Everything that could carry state from one call to the next and is
+    not expressible as a register command makes the translation fail (closed)."""
+
+    def __init__(self, tree):
+        self.tree = tree
+        self.cls = next((n for n in ast.walk(tree) if isinstance(n, ast.ClassDef) and n.name == CLS), None)
+        if self.cls is None:
+            fail(tree, f"class {CLS} not found")
+        self.methods = {n.name: n for n in self.cls.body if isinstance(n, ast.FunctionDef)}
+        self.fn = find_func(tree, "fitness", cls=CLS)
+        self.regs: list[str] = []
+        self.consumed: set[int] = set()      # ids of ast nodes (state writes / exits) accounted for by commands
+        self.acc = self.term = self.idx = None
+
+    # ---- expressions
+    def reg(self, name: str) -> int:
+        if name not in self.regs:
+            self.regs.append(name)
+        return self.regs.index(name)
+
+    def sexpr(self, node) -> str:
+        if isinstance(node, ast.Name):
+            if node.id == self.acc:
+                return "XAcc"
+            if self.term is not None and node.id == self.term:
+                return "XTerm"
+            if node.id == self.idx:
+                return "XIdx"
+            fail(node, "fitness: unsupported name in a state expression")
+        a = _self_attr(node)
+        if a is not None:
+            return f"(XReg {self.reg(a)})"
+        v = _num_const(node)
+        if v is not None:
+            return f"(XConst {_q(v)})"
+        e = _ext_const(node)
+        if e == "EPInf":
+            return "XPInf"
+        if e == "ENInf":
+            return "XNInf"
+        if isinstance(node, ast.BinOp) and isinstance(node.op, ast.Add):
+            return f"(XAdd {self.sexpr(node.left)} {self.sexpr(node.right)})"
+        if isinstance(node, ast.BinOp) and isinstance(node.op, ast.Sub) and _num_const(node.right) is not None:
+            return f"(XAdd {self.sexpr(node.left)} (XConst {_q(-_num_const(node.right))}))"
+        if isinstance(node, ast.Call) and isinstance(node.func, ast.Name) and node.func.id in ("min", "max") \
+                and len(node.args) == 2 and not node.keywords:
+            return f"({'XMin' if node.func.id == 'min' else 'XMax'} {self.sexpr(node.args[0])} {self.sexpr(node.args[1])})"
+        if isinstance(node, ast.Call) and ast.unparse(node.func) == "float" and len(node.args) == 1 and not node.keywords:
+            return self.sexpr(node.args[0])
+        fail(node, "fitness: unsupported state expression")
+
+    def scond(self, node) -> str:
+        if isinstance(node, ast.Constant) and node.value is True:
+            return "KTrue"
+        if isinstance(node, ast.UnaryOp) and isinstance(node.op, ast.Not):
+            return f"(KNot {self.scond(node.operand)})"
+        if isinstance(node, ast.BoolOp):
+            k = "KAnd" if isinstance(node.op, ast.And) else "KOr"
+            out = self.scond(node.values[0])
+            for v in node.values[1:]:
+                out = f"({k} {out} {self.scond(v)})"
+            return out
+        if isinstance(node, ast.Compare) and all(type(o) in CMPK for o in node.ops):
+            terms = [node.left, *node.comparators]
+            parts = [f"(KCmp {CMPK[type(op)]} {self.sexpr(x)} {self.sexpr(y)})" for x, op, y in zip(terms, node.ops, terms[1:])]
+            out = parts[0]
+            for p_ in parts[1:]:
+                out = f"(KAnd {out} {p_})"
+            return out
+        if isinstance(node, ast.Call) and ast.unparse(node.func) in ("math.isinf", "np.isinf", "numpy.isinf") \
+                and len(node.args) == 1 and not node.keywords:
+            e = self.sexpr(node.args[0])
+            return f"(KOr (KCmp CEq {e} XPInf) (KCmp CEq {e} XNInf))"
+        if isinstance(node, ast.Call) and ast.unparse(node.func) in ("math.isfinite", "np.isfinite", "numpy.isfinite") \
+                and len(node.args) == 1 and not node.keywords:
+            e = self.sexpr(node.args[0])
+            return f"(KNot (KOr (KCmp CEq {e} XPInf) (KCmp CEq {e} XNInf)))"
+        fail(node, "fitness: unsupported condition guarding a state write or an exit of the loop")
+
+    # ---- statements
+    @staticmethod
+    def effects(st) -> bool:
+        """does the statement (nested blocks included) write `self...`, or leave the loop / the method?"""
+        for n in ast.walk(st):
+            if isinstance(n, (ast.Break, ast.Continue, ast.Return)):
+                return True
+            if isinstance(n, (ast.Assign, ast.AugAssign, ast.AnnAssign, ast.Delete)):
+                tg = n.targets if isinstance(n, (ast.Assign, ast.Delete)) else [n.target]
+                if any(_root_is_self(t) for t in tg):
+                    return True
+        return False
+
+    def ret_expr(self, st) -> str:
+        v = st.value
+        if isinstance(v, (ast.List, ast.Tuple)) and len(v.elts) == 1:
+            return self.sexpr(v.elts[0])
+        fail(st, "fitness: `return [<expression>]` expected")
+
+    def cmds(self, stmts, guard: str, in_loop: bool) -> list[tuple[str, str, set, int | None]]:
+        """-> [(guard, action, registers read by the guard, register written or None)]"""
+        out = []
+        for st in stmts:
+            if not self.effects(st):
+                continue
+            g_reads = set(int(x) for x in __import__("re").findall(r"XReg (\d+)", guard))
+            if isinstance(st, (ast.Assign, ast.AnnAssign, ast.AugAssign)):
+                tg = st.targets if isinstance(st, ast.Assign) else [st.target]
+                if len(tg) != 1 or _self_attr(tg[0]) is None or st.value is None:
+                    fail(st, "fitness: unsupported write to the problem object")
+                r = self.reg(_self_attr(tg[0]))
+                if isinstance(st, ast.AugAssign):
+                    if not isinstance(st.op, (ast.Add, ast.Sub)):
+                        fail(st, "fitness: unsupported in-place operation on an attribute")
+                    rhs = self.sexpr(st.value) if isinstance(st.op, ast.Add) else None
+                    if rhs is None:
+                        v = _num_const(st.value)
+                        if v is None:
+                            fail(st, "fitness: unsupported in-place operation on an attribute")
+                        rhs = f"(XConst {_q(-v)})"
+                    e = f"(XAdd (XReg {r}) {rhs})"
+                else:
+                    e = self.sexpr(st.value)
+                self.consumed.add(id(st))
+                out.append((guard, f"(ASet {r} {e})", g_reads, r))
+            elif isinstance(st, ast.Break) and in_loop:
+                self.consumed.add(id(st))
+                out.append((guard, "ABreak", g_reads, None))
+            elif isinstance(st, ast.Continue) and in_loop:
+                self.consumed.add(id(st))
+                out.append((guard, "AContinue", g_reads, None))
+            elif isinstance(st, ast.Return):
+                self.consumed.add(id(st))
+                out.append((guard, f"(AReturn {self.ret_expr(st)})", g_reads, None))
+            elif isinstance(st, ast.If):
+                k = self.scond(st.test)
+                g1 = k if guard == "KTrue" else f"(KAnd {guard} {k})"
+                g0 = f"(KNot {k})" if guard == "KTrue" else f"(KAnd {guard} (KNot {k}))"
+                out += self.cmds(st.body, g1, in_loop)
+                out += self.cmds(st.orelse, g0, in_loop)
+            else:
+                fail(st, "fitness: a statement that writes the problem object or leaves the loop has an unsupported shape")
+        return out
+
+    def block(self, stmts, in_loop: bool) -> list[str]:
+        out = []
+        for st in stmts:
+            cs = self.cmds([st], "KTrue", in_loop)
+            # a register write must not change a condition that later commands of the same statement evaluate again
+            reads = set().union(*[c[2] for c in cs]) if cs else set()
+            for i, c in enumerate(cs):
+                if c[3] is not None and c[3] in reads and i != len(cs) - 1:
+                    fail(st, "fitness: a register is written and then read again by a guard of the same statement")
+            out += [f"({g}, {a})" for g, a, _, _ in cs]
+        return out
+
+    # ---- everything else must be free of state
+    FRESH_CALLS = {"np.full", "np.ones", "np.zeros", "np.empty", "np.ones_like", "np.zeros_like", "np.full_like",
+                   "np.empty_like", "np.array", "np.copy", "np.arange", "np.linspace", "numpy.array", "numpy.full",
+                   "numpy.ones", "numpy.zeros", "copy.deepcopy", "deepcopy", "dict", "list", "set", "float", "int"}
+
+    @classmethod
+    def is_fresh(cls, v) -> bool:
+        """does the expression create a new object that nothing else refers to (or an immutable number)?"""
+        if isinstance(v, (ast.Dict, ast.List, ast.Set, ast.ListComp, ast.DictComp, ast.SetComp)):
+            return True
+        if _num_const(v) is not None or _ext_const(v) is not None:
+            return True
+        if isinstance(v, ast.Call):
+            f = ast.unparse(v.func)
+            if f in cls.FRESH_CALLS:
+                return not any(k.arg == "copy" for k in v.keywords)
+            if isinstance(v.func, ast.Attribute) and v.func.attr in ("copy", "astype") and not v.keywords:
+                return v.func.attr == "copy" or not any(k.arg == "copy" for k in v.keywords)
+        if isinstance(v, ast.BinOp):          # arithmetic on arrays / numbers yields a new object
+            return True
+        return False
+
+    @classmethod
+    def fresh_names(cls, fn) -> set:
+        """local names every assignment of which (in this function) binds a freshly created object"""
+        vals: dict = {}
+        for n in ast.walk(fn):
+            if isinstance(n, ast.Assign):
+                for t in n.targets:
+                    if isinstance(t, ast.Name):
+                        vals.setdefault(t.id, []).append(n.value)
+                    elif isinstance(t, (ast.Tuple, ast.List)):
+                        for e in t.elts:
+                            if isinstance(e, ast.Name):
+                                vals.setdefault(e.id, []).append(None)
+            elif isinstance(n, ast.AnnAssign) and isinstance(n.target, ast.Name):
+                vals.setdefault(n.target.id, []).append(n.value)
+            elif isinstance(n, (ast.For, ast.comprehension)):
+                for e in ast.walk(n.target):
+                    if isinstance(e, ast.Name):
+                        vals.setdefault(e.id, []).append(None)
+            elif isinstance(n, (ast.With,)):
+                for it in n.items:
+                    if it.optional_vars is not None:
+                        for e in ast.walk(it.optional_vars):
+                            if isinstance(e, ast.Name):
+                                vals.setdefault(e.id, []).append(None)
+            elif isinstance(n, ast.NamedExpr) and isinstance(n.target, ast.Name):
+                vals.setdefault(n.target.id, []).append(n.value)
+        params = {a.arg for a in fn.args.args + fn.args.kwonlyargs + fn.args.posonlyargs}
+        return {k for k, vs in vals.items() if k not in params and all(v is not None and cls.is_fresh(v) for v in vs)}
+
+    def scan_rest(self, fn, strict_locals: bool):
+        fresh = self.fresh_names(fn) if strict_locals else set()
+
+        def base_name(e):
+            while isinstance(e, (ast.Subscript, ast.Attribute)):
+                e = e.value
+            return e.id if isinstance(e, ast.Name) else None
+        for n in ast.walk(fn):
+            if n is not fn and isinstance(n, (ast.FunctionDef, ast.AsyncFunctionDef, ast.Lambda, ast.ClassDef)):
+                fail(n, f"{fn.name}: nested definition")
+            if isinstance(n, (ast.Global, ast.Nonlocal)):
+                fail(n, f"{fn.name}: global / nonlocal state")
+            if isinstance(n, (ast.Assign, ast.AugAssign, ast.AnnAssign, ast.Delete)) and id(n) not in self.consumed:
+                tg = n.targets if isinstance(n, (ast.Assign, ast.Delete)) else [n.target]
+                for t in tg:
+                    for e in (t.elts if isinstance(t, (ast.Tuple, ast.List)) else [t]):
+                        if _root_is_self(e):
+                            fail(n, f"{fn.name}: writes the problem object")
+                        if strict_locals and isinstance(e, (ast.Subscript, ast.Attribute)) and base_name(e) not in fresh:
+                            fail(n, f"{fn.name}: stores into an object that may belong to the problem")
+                if strict_locals and isinstance(n, ast.AugAssign) and not (
+                        isinstance(n.target, ast.Name) and n.target.id == self.acc and fn is self.fn) \
+                        and base_name(n.target) not in fresh:
+                    fail(n, f"{fn.name}: in-place operation on an object that may belong to the problem")
+            if isinstance(n, ast.Call):
+                f = ast.unparse(n.func)
+                if f in ("setattr", "delattr", "object.__setattr__", "vars") and n.args and _root_is_self(n.args[0]):
+                    fail(n, f"{fn.name}: writes the problem object")
+                if "__dict__" in f and _root_is_self(n.func):
+                    fail(n, f"{fn.name}: writes the problem object")
+                if isinstance(n.func, ast.Attribute) and n.func.attr in MUTATORS and _root_is_self(n.func.value):
+                    fail(n, f"{fn.name}: mutates an attribute of the problem object")
+            if isinstance(n, ast.Attribute) and n.attr == "__dict__" and _root_is_self(n):
+                fail(n, f"{fn.name}: accesses the instance dictionary")
+
+    def callees(self, fn, seen):
+        for n in ast.walk(fn):
+            if isinstance(n, ast.Call):
+                a = _self_attr(n.func)
+                if a is not None and a in self.methods and a not in seen:
+                    seen.add(a)
+                    self.callees(self.methods[a], seen)
+        return seen
+
+    # ---- the whole method
+    def run(self) -> str:
+        fn = self.fn
+        if fn.decorator_list:
+            fail(fn, "fitness: decorated (a cache in front of the method would carry state)")
+        # the loop: at function level, possibly inside try / with blocks
+        path = []       # blocks from the function body down to the one that holds the loop
+
+        def find(stmts):
+            for st in stmts:
+                if isinstance(st, ast.For):
+                    path.append(stmts)
+                    return st
+                if isinstance(st, ast.Try) or isinstance(st, ast.With):
+                    r = find(st.body)
+                    if r is not None:
+                        path.insert(0, stmts)
+                        return r
+            return None
+        body = body_no_doc(fn)
+        loop = find(body)
+        loops = [n for n in ast.walk(fn) if isinstance(n, (ast.For, ast.While, ast.AsyncFor))]
+        if loop is None or len(loops) != 1:
+            fail(fn, f"fitness: expected exactly one loop (over the processor/target pairs) outside any branch, found {len(loops)}")
+        it = loop.iter
+        ok = (isinstance(it, ast.Call) and ast.unparse(it.func) == "enumerate" and len(it.args) == 1 and not it.keywords
+              and isinstance(it.args[0], ast.Call) and ast.unparse(it.args[0].func) == "zip" and len(it.args[0].args) == 2
+              and ast.unparse(it.args[0].args[0]) in ("processor_list", "self.param_processor_list")
+              and ast.unparse(it.args[0].args[1]) == "self.all_target_data"
+              and all(k.arg == "strict" and isinstance(k.value, ast.Constant) for k in it.args[0].keywords))
+        tg = loop.target
+        ok = ok and isinstance(tg, ast.Tuple) and len(tg.elts) == 2 and isinstance(tg.elts[0], ast.Name) \
+            and isinstance(tg.elts[1], ast.Tuple) and len(tg.elts[1].elts) == 2 \
+            and all(isinstance(e, ast.Name) for e in tg.elts[1].elts)
+        if not ok:
+            fail(loop, "fitness: expected `for i, (processor, target) in enumerate(zip(processor_list, self.all_target_data, strict=...))`")
+        if ast.unparse(it.args[0].args[0]) == "processor_list":
+            src = [n for n in ast.walk(fn) if isinstance(n, (ast.Assign, ast.AnnAssign))
+                   and ast.unparse(n.targets[0] if isinstance(n, ast.Assign) else n.target) == "processor_list"]
+            if len(src) != 1 or src[0].value is None or ast.unparse(src[0].value) != "self.param_processor_list":
+                fail(loop, "fitness: processor_list must be self.param_processor_list")
+        self.idx = tg.elts[0].id
+        # the accumulation statement: `<acc> += <term>` / `<acc> = <acc> + <term>` at the top level of the loop body
+        accs = []
+        for i, st in enumerate(loop.body):
+            if isinstance(st, ast.AugAssign) and isinstance(st.target, ast.Name) and isinstance(st.op, ast.Add):
+                accs.append((i, st.target.id, st.value))
+            elif isinstance(st, ast.Assign) and len(st.targets) == 1 and isinstance(st.targets[0], ast.Name) \
+                    and isinstance(st.value, ast.BinOp) and isinstance(st.value.op, ast.Add) \
+                    and ast.unparse(st.value.left) == st.targets[0].id:
+                accs.append((i, st.targets[0].id, st.value.right))
+        accs = [a for a in accs if "_calculate_fitness" in ast.unparse(a[2]) or isinstance(a[2], ast.Name)]
+        if len(accs) != 1:
+            fail(loop, f"fitness: expected one accumulation `overall_fitness += <fitness of the pair>` in the loop, found {len(accs)}")
+        pos, self.acc, val = accs[0]
+        if isinstance(val, ast.Name):
+            defs = [(j, st) for j, st in enumerate(loop.body[:pos]) if isinstance(st, (ast.Assign, ast.AnnAssign))
+                    and ast.unparse(st.targets[0] if isinstance(st, ast.Assign) else st.target) == val.id]
+            if len(defs) != 1 or defs[0][1].value is None:
+                fail(loop, "fitness: the accumulated value must be assigned once in the loop body")
+            self.term, val = val.id, defs[0][1].value
+        if not (isinstance(val, ast.Call) and ast.unparse(val.func) == "self._calculate_fitness"):
+            fail(val, "fitness: the accumulated value must be self._calculate_fitness(...)")
+        # the accumulator: initialised with 0 before the loop, assigned nowhere else
+        writes = [n for n in ast.walk(fn) if isinstance(n, (ast.Assign, ast.AugAssign, ast.AnnAssign))
+                  and any(isinstance(t, ast.Name) and t.id == self.acc
+                          for t in (n.targets if isinstance(n, ast.Assign) else [n.target]))]
+        inits = [n for n in writes if n is not loop.body[pos]]
+        if len(inits) != 1 or inits[0].value is None or _num_const(inits[0].value) != 0 or inits[0].lineno > loop.lineno \
+                or any(n is inits[0] for n in ast.walk(loop)):
+            fail(fn, "fitness: the accumulator must be initialised with 0 before the loop and only be added to in the loop")
+        # commands
+        pre = self.block(loop.body[:pos], in_loop=True)
+        post = self.block(loop.body[pos + 1:], in_loop=True)
+        orelse = self.block(loop.orelse, in_loop=False)
+        after_stmts, ret = [], None
+        holder = loop
+        for blk in reversed(path):
+            i = next(j for j, st in enumerate(blk) if st is holder or any(n is holder for n in ast.walk(st)))
+            after_stmts += blk[i + 1:]
+            holder = blk[i]
+        if not after_stmts or not isinstance(after_stmts[-1], ast.Return):
+            fail(fn, "fitness: the method must end with `return [<expression>]`")
+        ret = self.ret_expr(after_stmts[-1])
+        self.consumed.add(id(after_stmts[-1]))
+        after = self.block(after_stmts[:-1], in_loop=False)
+        # handlers: re-raise, nothing else that matters
+        for n in ast.walk(fn):
+            if isinstance(n, ast.Try):
+                for h in n.handlers:
+                    if not (h.body and isinstance(h.body[-1], ast.Raise)):
+                        fail(h, "fitness: an exception handler must end by raising")
+                    if any(isinstance(x, (ast.Return, ast.Break, ast.Continue)) for s in h.body for x in ast.walk(s)):
+                        fail(h, "fitness: an exception handler returns")
+                if any(isinstance(x, (ast.Return, ast.Break, ast.Continue)) for s in n.finalbody for x in ast.walk(s)):
+                    fail(n, "fitness: `finally` returns")
+        for n in ast.walk(fn):
+            if isinstance(n, (ast.Return, ast.Break, ast.Continue)) and id(n) not in self.consumed:
+                fail(n, "fitness: an exit that is not accounted for")
+        # no other state anywhere in the method and in the methods of the problem it calls
+        self.scan_rest(fn, strict_locals=True)
+        for name in sorted(self.callees(fn, set())):
+            m = self.methods[name]
+            if m.decorator_list and name not in ("fitness",):
+                fail(m, f"{name}: decorated")
+            # convert_to_parameters / update_processor work on copies they make themselves (C10 models them)
+            self.scan_rest(m, strict_locals=name not in ("convert_to_parameters", "update_processor"))
+        # registers: initialised once, with a constant, in __init__
+        init = self.methods.get("__init__")
+        regs = []
+        for r in self.regs:
+            asg = [n for n in ast.walk(init) if isinstance(n, (ast.Assign, ast.AnnAssign))
+                   and any(_self_attr(t) == r for t in (n.targets if isinstance(n, ast.Assign) else [n.target]))]
+            e = _ext_const(asg[0].value) if len(asg) == 1 and asg[0].value is not None else None
+            if e is None:
+                fail(fn, f"fitness: self.{r} is used as state but is not initialised once with a constant in __init__")
+            regs.append(e)
+        # nothing else writes the registers
+        for name, m in self.methods.items():
+            if name in ("__init__", "fitness"):
+                continue
+            for n in ast.walk(m):
+                if isinstance(n, (ast.Assign, ast.AugAssign, ast.AnnAssign, ast.Delete)):
+                    tg_ = n.targets if isinstance(n, (ast.Assign, ast.Delete)) else [n.target]
+                    if any(_self_attr(t) in self.regs for t in tg_):
+                        fail(n, f"{name}: writes a register of fitness")
+
+        def lst(xs):
+            return "[" + "; ".join(xs) + "]"
+        return (f"{{| fd_regs := {lst(regs)};\n     fd_pre := {lst(pre)};\n     fd_post := {lst(post)};\n"
+                f"     fd_else := {lst(orelse)};\n     fd_after := {lst(after)};\n     fd_ret := {ret} |}}")
+
+
+def _fitness_desc(tree) -> str:
+    return _Fit(tree).run()
+
+
+FDESC = "{| fd_regs := []; fd_pre := []; fd_post := []; fd_else := []; fd_after := []; fd_ret := XAcc |}"
+
+
 WCONF = "{| wc_single := true; wc_multi := true; wc_shape := ShTarget; wc_time_key := true |}"
 
 
-def render(out_guards, c2, c3, single=None, multi=None, target_first=True, wconf=None) -> str:
+def render(out_guards, c2, c3, single=None, multi=None, target_first=True, wconf=None, fdesc=None) -> str:
     def lst(gs):
         return "[ " + ";\n      ".join(gs) + " ]"
-    return (HEADER + "From Coq Require Import ZArith List.\nFrom PyxelV Require Import Model.Fitness.\n"
+    return (HEADER + "From Coq Require Import ZArith QArith List.\nFrom PyxelV Require Import Model.Fitness Model.FitnessHist.\n"
             "Import ListNotations.\nLocal Open Scope Z_scope.\n"
             "Definition src_checker : checker :=\n"
             f"  {{| out_guards :=\n      {lst(out_guards)};\n"
@@ -550,7 +1000,8 @@ def render(out_guards, c2, c3, single=None, multi=None, target_first=True, wconf
             f"     target_first := {'true' if target_first else 'false'} |}}.\n"
             "Definition src_calls : calls :=\n"
             f"  {{| call_single := {single or CALL_SINGLE};\n     call_multi := {multi or CALL_MULTI} |}}.\n"
-            f"Definition src_weights : wconf :=\n  {wconf or WCONF}.\n")
+            f"Definition src_weights : wconf :=\n  {wconf or WCONF}.\n"
+            f"Definition src_fdesc : fdesc :=\n  {fdesc or FDESC}.\n")
 
 
 CALL_SINGLE = "{| cs_rows := (QTgt DRow); cs_cols := (QTgt DCol); cs_times := QAbsent |}"
@@ -579,7 +1030,7 @@ def translate(repo: Path) -> str:
     c3 = _guards(f3, {"self": "Tgt"}, allow_pre=False, helpers=helpers)
     fit_tree = parse(repo, REL_FIT)
     single, multi = _call_sites(fit_tree)
-    return render(og, c2, c3, single, multi, target_first, _weights_conf(fit_tree))
+    return render(og, c2, c3, single, multi, target_first, _weights_conf(fit_tree), _fitness_desc(fit_tree))
 
 
 def _tgt_block(d, b):
